@@ -1,7 +1,10 @@
 (* Non-vacuity of the C05 theorems and the recorded finding, by evaluation *)
 From Coq Require Import List NArith ZArith Bool.
 From SudachiVerif Require Import Model.Codec Proofs.CodecProofs.
-From SudachiVerif Require Model.CodecCheck Model.CodecIO.   (* keeps the case-file entry points in step with the facts *)
+From SudachiVerif Require Model.CodecCheck.   (* keeps the case-file entry points in step with the facts *)
+(* Model.CodecIO (packed literals of the case files, primitive 63-bit integers) is deliberately NOT required here: it is
+   built with the other models by the check driver, and requiring it would put Uint63's primitives and axioms into the
+   closure that the thorough tier's coqchk audits, although no theorem or witness uses them *)
 Import ListNotations.
 Open Scope N_scope.
 
